@@ -26,7 +26,7 @@ use arrow_array::types::*;
 use arrow_array::*;
 use arrow_buffer::{ArrowNativeType, MutableBuffer, NullBuffer, OffsetBuffer};
 use arrow_schema::{ArrowError, DataType};
-use num_traits::Zero;
+use num_traits::{CheckedAdd, Zero};
 use std::cmp::Ordering;
 use std::sync::Arc;
 
@@ -81,13 +81,15 @@ pub fn substring(
             let values = substring(dictionary.values(), start, length)?;
             Ok(Arc::new(dictionary.with_values(values)))
         }
-        DataType::LargeBinary => {
-            byte_substring(array.as_binary::<i64>(), start, length.map(|e| e as i64))
-        }
+        DataType::LargeBinary => byte_substring(
+            array.as_binary::<i64>(),
+            start,
+            length.map(|e| e.min(i64::MAX as u64) as i64),
+        ),
         DataType::Binary => byte_substring(
             array.as_binary::<i32>(),
-            start as i32,
-            length.map(|e| e as i32),
+            start.clamp(i32::MIN as i64, i32::MAX as i64) as i32,
+            length.map(|e| e.min(i32::MAX as u64) as i32),
         ),
         DataType::FixedSizeBinary(old_len) => {
             let old_len: usize = (*old_len)
@@ -95,13 +97,15 @@ pub fn substring(
                 .expect("negative FixedSizeBinary value length");
             fixed_size_binary_substring(array.as_fixed_size_binary(), old_len, start, length)
         }
-        DataType::LargeUtf8 => {
-            byte_substring(array.as_string::<i64>(), start, length.map(|e| e as i64))
-        }
+        DataType::LargeUtf8 => byte_substring(
+            array.as_string::<i64>(),
+            start,
+            length.map(|e| e.min(i64::MAX as u64) as i64),
+        ),
         DataType::Utf8 => byte_substring(
             array.as_string::<i32>(),
-            start as i32,
-            length.map(|e| e as i32),
+            start.clamp(i32::MIN as i64, i32::MAX as i64) as i32,
+            length.map(|e| e.min(i32::MAX as u64) as i32),
         ),
         DataType::Utf8View => string_view_substring(array.as_string_view(), start, length),
         DataType::BinaryView => binary_view_substring(array.as_binary_view(), start, length),
@@ -263,7 +267,9 @@ fn view_substring_range(
         Ordering::Less => (original_length + start).max(0),
     };
     let new_end = match substring_length {
-        Some(length) => new_start.saturating_add(length as i64).min(original_length),
+        Some(length) => new_start
+            .saturating_add(i64::try_from(length).unwrap_or(i64::MAX))
+            .min(original_length),
         None => original_length,
     };
     (new_start as usize, new_end as usize)
@@ -366,12 +372,21 @@ where
                 return Ok(());
             }
             let new_start = match start.cmp(&zero) {
-                Ordering::Greater => check_char_boundary((pair[0] + start).min(pair[1]))?,
+                // an offset past the representable range is past the end of the element
+                Ordering::Greater => check_char_boundary(
+                    pair[0]
+                        .checked_add(&start)
+                        .map_or(pair[1], |o| o.min(pair[1])),
+                )?,
                 Ordering::Equal => pair[0],
                 Ordering::Less => check_char_boundary((pair[1] + start).max(pair[0]))?,
             };
             let new_end = match length {
-                Some(length) => check_char_boundary((length + new_start).min(pair[1]))?,
+                Some(length) => check_char_boundary(
+                    length
+                        .checked_add(&new_start)
+                        .map_or(pair[1], |o| o.min(pair[1])),
+                )?,
                 None => pair[1],
             };
             len_so_far += new_end - new_start;
